@@ -106,7 +106,7 @@ class FString(object):
         return filter(self.is_correct_ast, actual_candidates)
 
     def str_for(self, s, quote):
-        if self.pep701 and ('\\' in s or '\r' in s):
+        if self.pep701:
             # Backslashes are allowed in nested f-strings from python 3.12
             return str(MiniString(s, quote)).replace('{', '{{').replace('}', '}}')
 
